@@ -90,7 +90,13 @@ Definition set (r : reg) (v : val) (s : env) : env :=
   end.
 
 Section Interp.
-  Variable mul : Q -> Q -> Q.             (* the product: [fmul] when run, any function in the theorems *)
+  Variable mul : Q -> Q -> Q.             (* scalar product: [fmul] (binary64) when run, any function in the theorems *)
+  (* the local-threshold ARRAY has the image's dtype in per-object mode (np.ones(image.shape, image.dtype)):
+     NumPy (1.x value-based casting) converts a scalar operand to the array's dtype before an array
+     operation, and a masked store converts the stored scalar.  [cast] is that conversion (identity for a
+     float64 array, rounding to binary32 for a float32 array), [amul] the array's own product. *)
+  Variable amul : Q -> Q -> Q.
+  Variable cast : Q -> Q.
   Variable inp : inputs.
 
   (* None = the Python expression raises (an operand is None, or max/min of an array) *)
@@ -102,7 +108,7 @@ Section Interp.
     | EMul a b =>
         match eval a s, eval b s with
         | Some (VNum x), Some (VNum y) => Some (VNum (mul x y))
-        | Some (VArr xs), Some (VNum y) => Some (VArr (map (fun x => mul x y) xs))
+        | Some (VArr xs), Some (VNum y) => Some (VArr (map (fun x => amul x (cast y)) xs))
         | _, _ => None
         end
     | EMax a b =>
@@ -134,19 +140,19 @@ Section Interp.
         match in_mod inp with MGlobal => exec g s | MAdaptive => exec a s | MPerObject => exec q s end
     | SClampLow r b =>
         match get r s, get b s with
-        | VArr a, VNum x => Some (set r (VArr (map (clamp_lo x) a)) s)
+        | VArr a, VNum x => Some (set r (VArr (map (clamp_lo (cast x)) a)) s)
         | _, _ => None
         end
     | SClampHigh r b =>
         match get r s, get b s with
-        | VArr a, VNum x => Some (set r (VArr (map (clamp_hi x) a)) s)
+        | VArr a, VNum x => Some (set r (VArr (map (clamp_hi (cast x)) a)) s)
         | _, _ => None
         end
     | SSentinel r c =>
         match in_mod inp, in_lab0 inp with
         | MPerObject, Some lab0 =>
             match get r s, eval c s with
-            | VArr a, Some (VNum x) => Some (set r (VArr (sentinel x a lab0)) s)
+            | VArr a, Some (VNum x) => Some (set r (VArr (sentinel (cast x) a lab0)) s)
             | _, _ => None
             end
         | _, _ => Some s
